@@ -42,6 +42,9 @@ pub trait Family: 'static + Sized + Send + Sync {
     /// PUBLISH with topic "t", QoS 0, no properties and the given payload
     fn publish_with_payload(payload: Vec<u8>) -> Self::Packet;
     fn type_index(p: &Self::Packet) -> usize;
+    /// the public per-type body decoder (`X::decode_async`) selected by the frame's own header,
+    /// run on the bytes after the header; None if the header does not parse or the type has no body decoder
+    fn body_level_decode(frame: &[u8]) -> Option<Result<Self::Packet, Self::Error>>;
     /// sized constructions that only exist in one family (see sized.rs)
     fn build_sized(kind: u64, typ: usize, target: usize) -> Option<Self::Packet>;
     /// every invariant-bearing field of a packet
@@ -164,6 +167,23 @@ impl Family for V3 {
     }
     fn build_sized(_kind: u64, _typ: usize, _target: usize) -> Option<Self::Packet> {
         None
+    }
+    fn body_level_decode(frame: &[u8]) -> Option<Result<Self::Packet, Self::Error>> {
+        use futures_lite::future::block_on;
+        use v3::PacketType as T;
+        let h = v3::Header::decode(frame).ok()?;
+        let (hl, _) = crate::refdec::frame_bounds(frame).ok()?;
+        let mut r: &[u8] = frame.get(hl..)?;
+        let rl = h.remaining_len as usize;
+        Some(match h.typ {
+            T::Connect => block_on(v3::Connect::decode_async(&mut r)).map(Into::into),
+            T::Connack => block_on(v3::Connack::decode_async(&mut r)).map(Into::into),
+            T::Publish => block_on(v3::Publish::decode_async(&mut r, h)).map(Into::into),
+            T::Subscribe => block_on(v3::Subscribe::decode_async(&mut r, rl)).map(Into::into),
+            T::Suback => block_on(v3::Suback::decode_async(&mut r, rl)).map(Into::into),
+            T::Unsubscribe => block_on(v3::Unsubscribe::decode_async(&mut r, rl)).map(Into::into),
+            _ => return None,
+        })
     }
     fn walk(p: &Self::Packet) -> Vec<crate::walk::Field<'_>> {
         crate::walk::fields_v3(p)
@@ -295,6 +315,29 @@ impl Family for V5 {
     }
     fn build_sized(kind: u64, typ: usize, target: usize) -> Option<Self::Packet> {
         crate::sized::build_v5(kind, typ, target)
+    }
+    fn body_level_decode(frame: &[u8]) -> Option<Result<Self::Packet, Self::Error>> {
+        use futures_lite::future::block_on;
+        use v5::PacketType as T;
+        let h = v5::Header::decode(frame).ok()?;
+        let (hl, _) = crate::refdec::frame_bounds(frame).ok()?;
+        let mut r: &[u8] = frame.get(hl..)?;
+        Some(match h.typ {
+            T::Connect => block_on(v5::Connect::decode_async(&mut r, h)).map(Into::into),
+            T::Connack => block_on(v5::Connack::decode_async(&mut r, h)).map(Into::into),
+            T::Publish => block_on(v5::Publish::decode_async(&mut r, h)).map(Into::into),
+            T::Puback => block_on(v5::Puback::decode_async(&mut r, h)).map(Into::into),
+            T::Pubrec => block_on(v5::Pubrec::decode_async(&mut r, h)).map(Into::into),
+            T::Pubrel => block_on(v5::Pubrel::decode_async(&mut r, h)).map(Into::into),
+            T::Pubcomp => block_on(v5::Pubcomp::decode_async(&mut r, h)).map(Into::into),
+            T::Subscribe => block_on(v5::Subscribe::decode_async(&mut r, h)).map(Into::into),
+            T::Suback => block_on(v5::Suback::decode_async(&mut r, h)).map(Into::into),
+            T::Unsubscribe => block_on(v5::Unsubscribe::decode_async(&mut r, h)).map(Into::into),
+            T::Unsuback => block_on(v5::Unsuback::decode_async(&mut r, h)).map(Into::into),
+            T::Disconnect => block_on(v5::Disconnect::decode_async(&mut r, h)).map(Into::into),
+            T::Auth => block_on(v5::Auth::decode_async(&mut r, h)).map(Into::into),
+            T::Pingreq | T::Pingresp => return None,
+        })
     }
     fn walk(p: &Self::Packet) -> Vec<crate::walk::Field<'_>> {
         crate::walk::fields_v5(p)
